@@ -176,6 +176,49 @@ def wPast : WPc α → Bool
 @[simp] theorem cPost_cAfter : cPost (.cAfter : CPc α) = true := rfl
 @[simp] theorem cPost_cDone : cPost (.cDone : CPc α) = true := rfl
 
+/-- what the generator has raised into the consumer, by program point -/
+def raisedAt (c : CPc α) (closed : Bool) (ex : Option ε) : Option ε :=
+  match c with
+  | .cDone => bif closed then none else ex
+  | _ => none
+
+@[simp] theorem raisedAt_cGet (cl : Bool) (ex : Option ε) : raisedAt (.cGet : CPc α) cl ex = none := rfl
+@[simp] theorem raisedAt_cHave (x : α) (cl : Bool) (ex : Option ε) : raisedAt (.cHave x) cl ex = none := rfl
+@[simp] theorem raisedAt_cYield (cl : Bool) (ex : Option ε) : raisedAt (.cYield : CPc α) cl ex = none := rfl
+@[simp] theorem raisedAt_cFin (cl : Bool) (ex : Option ε) : raisedAt (.cFin : CPc α) cl ex = none := rfl
+@[simp] theorem raisedAt_cDrain (cl : Bool) (ex : Option ε) : raisedAt (.cDrain : CPc α) cl ex = none := rfl
+@[simp] theorem raisedAt_cJoin (cl : Bool) (ex : Option ε) : raisedAt (.cJoin : CPc α) cl ex = none := rfl
+@[simp] theorem raisedAt_cAfter (cl : Bool) (ex : Option ε) : raisedAt (.cAfter : CPc α) cl ex = none := rfl
+@[simp] theorem raisedAt_cDone (cl : Bool) (ex : Option ε) :
+    raisedAt (.cDone : CPc α) cl ex = bif cl then none else ex := rfl
+
+/-- the consumer is at `thread.join()` -/
+def cJoinB : CPc α → Bool
+  | .cJoin => true
+  | _ => false
+
+/-- the consumer has left the `get()`/`yield` loop -/
+def cLeft : CPc α → Bool
+  | .cFin | .cDrain | .cJoin | .cAfter | .cDone => true
+  | _ => false
+
+@[simp] theorem cJoinB_cGet : cJoinB (.cGet : CPc α) = false := rfl
+@[simp] theorem cJoinB_cHave (x : α) : cJoinB (.cHave x : CPc α) = false := rfl
+@[simp] theorem cJoinB_cYield : cJoinB (.cYield : CPc α) = false := rfl
+@[simp] theorem cJoinB_cFin : cJoinB (.cFin : CPc α) = false := rfl
+@[simp] theorem cJoinB_cDrain : cJoinB (.cDrain : CPc α) = false := rfl
+@[simp] theorem cJoinB_cJoin : cJoinB (.cJoin : CPc α) = true := rfl
+@[simp] theorem cJoinB_cAfter : cJoinB (.cAfter : CPc α) = false := rfl
+@[simp] theorem cJoinB_cDone : cJoinB (.cDone : CPc α) = false := rfl
+@[simp] theorem cLeft_cGet : cLeft (.cGet : CPc α) = false := rfl
+@[simp] theorem cLeft_cHave (x : α) : cLeft (.cHave x : CPc α) = false := rfl
+@[simp] theorem cLeft_cYield : cLeft (.cYield : CPc α) = false := rfl
+@[simp] theorem cLeft_cFin : cLeft (.cFin : CPc α) = true := rfl
+@[simp] theorem cLeft_cDrain : cLeft (.cDrain : CPc α) = true := rfl
+@[simp] theorem cLeft_cJoin : cLeft (.cJoin : CPc α) = true := rfl
+@[simp] theorem cLeft_cAfter : cLeft (.cAfter : CPc α) = true := rfl
+@[simp] theorem cLeft_cDone : cLeft (.cDone : CPc α) = true := rfl
+
 theorem handC_length_le (c : CPc α) : (handC c).length ≤ 1 := by cases c <;> simp
 theorem handW_length_le (w : WPc α) : (handW w).length ≤ 1 := by cases w <;> simp
 theorem rp_le (w : WPc α) : rp w ≤ 1 := by cases w <;> simp
@@ -199,7 +242,7 @@ structure Inv (b : Nat) (src₀ : List α) (ending : Option ε) (s : St α ε) :
   /-- the flag is set exactly from `cDrain` on -/
   shut : s.shutdown = cShut s.c
   /-- at `join()` the queue was seen empty and the worker can put at most once more -/
-  join : s.c = .cJoin → s.q.length + rp s.w ≤ 1
+  join : cJoinB s.c = true → s.q.length + rp s.w ≤ 1
   /-- `join()` returned: the worker has exited -/
   after : cPost s.c = true → s.w = .wDone
   /-- before shutdown the sentinel occurs at most once and only last -/
@@ -207,7 +250,7 @@ structure Inv (b : Nat) (src₀ : List α) (ending : Option ε) (s : St α ε) :
   /-- before shutdown a sentinel in the queue means the worker is gone -/
   sent : s.shutdown = false → hasS s.q = true → s.w = .wDone
   /-- before shutdown a dead worker left a sentinel (or the consumer is already leaving) -/
-  dead : s.shutdown = false → s.w = .wDone → hasS s.q = true ∨ s.c = .cFin
+  dead : s.shutdown = false → s.w = .wDone → hasS s.q = true ∨ cLeft s.c = true
   /-- nothing lost, nothing duplicated, order kept -/
   fifo : s.shutdown = false →
     s.delivered ++ (handC s.c ++ (items s.q ++ (handW s.w ++ s.src))) = src₀
@@ -217,11 +260,10 @@ structure Inv (b : Nat) (src₀ : List α) (ending : Option ε) (s : St α ε) :
   /-- before shutdown, once the loop is over the source is exhausted and its ending is recorded -/
   past : s.shutdown = false → wPast s.w = true → s.excInfo = ending ∧ s.src = []
   /-- leaving without `close()` means the sentinel was consumed -/
-  norm : s.closed = false → (s.c = .cFin ∨ s.shutdown = true) →
+  norm : s.closed = false → cLeft s.c = true →
     s.w = .wDone ∧ s.delivered = src₀ ∧ s.excInfo = ending
-  rais0 : s.c ≠ .cDone → s.raised = none
-  rais1 : s.c = .cDone → s.closed = true → s.raised = none
-  rais2 : s.c = .cDone → s.closed = false → s.raised = s.excInfo
+  /-- nothing is raised before the end; at the end it is `exc_info`, unless closed -/
+  rais : s.raised = raisedAt s.c s.closed s.excInfo
   /-- before shutdown every pulled item is accounted for -/
   pull : s.shutdown = false →
     s.pulled = s.delivered.length + (handC s.c).length + (items s.q).length + (handW s.w).length
@@ -234,40 +276,319 @@ theorem inv_init {b : Nat} {src₀ : List α} {ending : Option ε} (hb : 1 ≤ b
 
 /-! ## Preservation, one lemma per thread -/
 
+theorem cJoinB_cShut (c : CPc α) : cJoinB c = true → cShut c = true := by cases c <;> simp
+theorem cPost_cShut (c : CPc α) : cPost c = true → cShut c = true := by cases c <;> simp
+theorem cShut_cLeft (c : CPc α) : cShut c = true → cLeft c = true := by cases c <;> simp
+theorem raisedAt_not_post (c : CPc α) (cl : Bool) (ex : Option ε) (h : cPost c = false) :
+    raisedAt c cl ex = none := by cases c <;> simp_all
+
+/-- closes the goals `Inv … s'` once `s'` is an explicit record -/
+local macro "inv_tac" : tactic =>
+  `(tactic| (simp at * <;> constructor <;> (try simp) <;> grind [okQ_append, handW_wDone, rp_wDone, nx_wDone, wPast_wDone, okQ_nil, items_nil, hasS_nil]))
+
 section Step
 variable {b : Nat} {src₀ : List α} {ending : Option ε} {s s' : St α ε}
 
-theorem inv_step_worker (h : Inv b src₀ ending s) (hs : step s .worker = some s') :
-    Inv b src₀ ending s' := by
+theorem inv_w0 (h : Inv b src₀ ending s) (hw : s.w = .w0)
+    (hs : step s .worker = some s') : Inv b src₀ ending s' := by
   obtain ⟨b', q, sh, ex, src, en, pu, de, cl, ra, w, c⟩ := s
   obtain ⟨hb, sb, se, qb, shut, join, after, okq, sent, dead, fifo, pre, len, exc, past, norm,
-    rais0, rais1, rais2, pull, pullS⟩ := h
+    rais, pull, pullS⟩ := h
   simp only at *
-  cases w with
-  | w0 =>
-    cases sh <;> simp only [step, Option.some.injEq] at hs <;> subst hs <;> constructor <;> simp_all
+  subst hw
+  have hjs := cJoinB_cShut c
+  have hps := cPost_cShut c
+  have hsl := cShut_cLeft c
+  cases sh <;> simp only [step, Option.some.injEq] at hs <;> subst hs <;> inv_tac
+
+theorem inv_wNext_cons (h : Inv b src₀ ending s) (hw : s.w = .wNext) (hsrc : s.src ≠ [])
+    (hs : step s .worker = some s') : Inv b src₀ ending s' := by
+  obtain ⟨b', q, sh, ex, src, en, pu, de, cl, ra, w, c⟩ := s
+  obtain ⟨hb, sb, se, qb, shut, join, after, okq, sent, dead, fifo, pre, len, exc, past, norm,
+    rais, pull, pullS⟩ := h
+  simp only at *
+  subst hw
+  have hjs := cJoinB_cShut c
+  have hps := cPost_cShut c
+  have hsl := cShut_cLeft c
+  cases src with
+  | nil => simp at hsrc
+  | cons x rest =>
+    simp only [step, Option.some.injEq] at hs; subst hs
+    cases sh <;> inv_tac
+
+theorem inv_wNext_nil (h : Inv b src₀ ending s) (hw : s.w = .wNext) (hsrc : s.src = [])
+    (hs : step s .worker = some s') : Inv b src₀ ending s' := by
+  obtain ⟨b', q, sh, ex, src, en, pu, de, cl, ra, w, c⟩ := s
+  obtain ⟨hb, sb, se, qb, shut, join, after, okq, sent, dead, fifo, pre, len, exc, past, norm,
+    rais, pull, pullS⟩ := h
+  simp only at *
+  subst hw
+  have hjs := cJoinB_cShut c
+  have hps := cPost_cShut c
+  have hsl := cShut_cLeft c
+  subst hsrc
+  cases en with
+  | none =>
+    simp only [step, Option.some.injEq] at hs; subst hs
+    cases sh <;> inv_tac
+  | some e =>
+    simp only [step, Option.some.injEq] at hs; subst hs
+    have hr : raisedAt c cl (some e) = raisedAt c cl ex := by
+      cases c <;> simp_all
+    cases sh <;> inv_tac
+
+theorem inv_wChk1 {x : α} (h : Inv b src₀ ending s) (hw : s.w = .wChk1 x)
+    (hs : step s .worker = some s') : Inv b src₀ ending s' := by
+  obtain ⟨b', q, sh, ex, src, en, pu, de, cl, ra, w, c⟩ := s
+  obtain ⟨hb, sb, se, qb, shut, join, after, okq, sent, dead, fifo, pre, len, exc, past, norm,
+    rais, pull, pullS⟩ := h
+  simp only at *
+  subst hw
+  have hjs := cJoinB_cShut c
+  have hps := cPost_cShut c
+  have hsl := cShut_cLeft c
+  cases sh <;> simp only [step, Option.some.injEq] at hs <;> subst hs <;> inv_tac
+
+theorem inv_wPut {x : α} (h : Inv b src₀ ending s) (hw : s.w = .wPut x)
+    (hs : step s .worker = some s') : Inv b src₀ ending s' := by
+  obtain ⟨b', q, sh, ex, src, en, pu, de, cl, ra, w, c⟩ := s
+  obtain ⟨hb, sb, se, qb, shut, join, after, okq, sent, dead, fifo, pre, len, exc, past, norm,
+    rais, pull, pullS⟩ := h
+  simp only at *
+  subst hw
+  have hjs := cJoinB_cShut c
+  have hps := cPost_cShut c
+  have hsl := cShut_cLeft c
+  simp only [step] at hs
+  split at hs
+  · simp only [Option.some.injEq] at hs; subst hs
+    have hi := items_length_le q
+    cases sh <;> inv_tac
+  · simp at hs
+
+theorem inv_wChk2 (h : Inv b src₀ ending s) (hw : s.w = .wChk2)
+    (hs : step s .worker = some s') : Inv b src₀ ending s' := by
+  obtain ⟨b', q, sh, ex, src, en, pu, de, cl, ra, w, c⟩ := s
+  obtain ⟨hb, sb, se, qb, shut, join, after, okq, sent, dead, fifo, pre, len, exc, past, norm,
+    rais, pull, pullS⟩ := h
+  simp only at *
+  subst hw
+  have hjs := cJoinB_cShut c
+  have hps := cPost_cShut c
+  have hsl := cShut_cLeft c
+  cases sh <;> simp only [step, Option.some.injEq] at hs <;> subst hs <;> inv_tac
+
+theorem inv_wFin (h : Inv b src₀ ending s) (hw : s.w = .wFin)
+    (hs : step s .worker = some s') : Inv b src₀ ending s' := by
+  obtain ⟨b', q, sh, ex, src, en, pu, de, cl, ra, w, c⟩ := s
+  obtain ⟨hb, sb, se, qb, shut, join, after, okq, sent, dead, fifo, pre, len, exc, past, norm,
+    rais, pull, pullS⟩ := h
+  simp only at *
+  subst hw
+  have hjs := cJoinB_cShut c
+  have hps := cPost_cShut c
+  have hsl := cShut_cLeft c
+  cases sh <;> simp only [step, Option.some.injEq] at hs <;> subst hs <;> inv_tac
+
+theorem inv_wPutS (h : Inv b src₀ ending s) (hw : s.w = .wPutS)
+    (hs : step s .worker = some s') : Inv b src₀ ending s' := by
+  obtain ⟨b', q, sh, ex, src, en, pu, de, cl, ra, w, c⟩ := s
+  obtain ⟨hb, sb, se, qb, shut, join, after, okq, sent, dead, fifo, pre, len, exc, past, norm,
+    rais, pull, pullS⟩ := h
+  simp only at *
+  subst hw
+  have hjs := cJoinB_cShut c
+  have hps := cPost_cShut c
+  have hsl := cShut_cLeft c
+  simp only [step] at hs
+  split at hs
+  · simp only [Option.some.injEq] at hs; subst hs
+    have hi := items_length_le q
+    cases sh <;> inv_tac
+  · simp at hs
+
+theorem inv_step_worker (h : Inv b src₀ ending s) (hs : step s .worker = some s') :
+    Inv b src₀ ending s' := by
+  cases hw : s.w with
+  | w0 => exact inv_w0 h hw hs
   | wNext =>
-    cases src with
-    | cons x rest =>
-      simp only [step, Option.some.injEq] at hs; subst hs
-      cases sh <;> constructor <;> simp_all <;> omega
-    | nil =>
-      cases en with
-      | none =>
-        simp only [step, Option.some.injEq] at hs; subst hs
-        cases sh <;> constructor <;> simp_all
-      | some e =>
-        simp only [step, Option.some.injEq] at hs; subst hs
-        cases sh <;> constructor <;> simp_all
-  | wChk1 x =>
-    cases sh <;> simp only [step, Option.some.injEq] at hs <;> subst hs <;> constructor <;> simp_all
-  | wPut x => sorry
-  | wChk2 =>
-    cases sh <;> simp only [step, Option.some.injEq] at hs <;> subst hs <;> constructor <;> simp_all
-  | wFin =>
-    cases sh <;> simp only [step, Option.some.injEq] at hs <;> subst hs <;> constructor <;> simp_all
-  | wPutS => sorry
-  | wDone => simp [step] at hs
+    cases hsrc : s.src with
+    | nil => exact inv_wNext_nil h hw hsrc hs
+    | cons x r => exact inv_wNext_cons h hw (by simp [hsrc]) hs
+  | wChk1 x => exact inv_wChk1 h hw hs
+  | wPut x => exact inv_wPut h hw hs
+  | wChk2 => exact inv_wChk2 h hw hs
+  | wFin => exact inv_wFin h hw hs
+  | wPutS => exact inv_wPutS h hw hs
+  | wDone => simp [step, hw] at hs
+
+theorem inv_cGet (h : Inv b src₀ ending s) (hc : s.c = .cGet)
+    (hs : step s .consumer = some s') : Inv b src₀ ending s' := by
+  obtain ⟨b', q, sh, ex, src, en, pu, de, cl, ra, w, c⟩ := s
+  obtain ⟨hb, sb, se, qb, shut, join, after, okq, sent, dead, fifo, pre, len, exc, past, norm,
+    rais, pull, pullS⟩ := h
+  simp only at *
+  subst hc
+  have hrp := rp_le w
+  have hnx := nx_handW w
+  have hhw := handW_length_le w
+  have hi := items_length_le q
+  cases sh
+  · cases q with
+    | nil => simp [step] at hs
+    | cons y rest =>
+      cases y <;> simp only [step, Option.some.injEq] at hs <;> subst hs <;> inv_tac
+  · simp at shut
+
+theorem inv_cHave {x : α} (h : Inv b src₀ ending s) (hc : s.c = .cHave x)
+    (hs : step s .consumer = some s') : Inv b src₀ ending s' := by
+  obtain ⟨b', q, sh, ex, src, en, pu, de, cl, ra, w, c⟩ := s
+  obtain ⟨hb, sb, se, qb, shut, join, after, okq, sent, dead, fifo, pre, len, exc, past, norm,
+    rais, pull, pullS⟩ := h
+  simp only at *
+  subst hc
+  have hrp := rp_le w
+  have hnx := nx_handW w
+  have hhw := handW_length_le w
+  have hi := items_length_le q
+  cases sh
+  · simp only [step, Option.some.injEq] at hs; subst hs
+    have hp : de ++ [x] <+: src₀ := ⟨_, by simpa using fifo rfl⟩
+    inv_tac
+  · simp at shut
+
+theorem inv_cFin (h : Inv b src₀ ending s) (hc : s.c = .cFin)
+    (hs : step s .consumer = some s') : Inv b src₀ ending s' := by
+  obtain ⟨b', q, sh, ex, src, en, pu, de, cl, ra, w, c⟩ := s
+  obtain ⟨hb, sb, se, qb, shut, join, after, okq, sent, dead, fifo, pre, len, exc, past, norm,
+    rais, pull, pullS⟩ := h
+  simp only at *
+  subst hc
+  have hrp := rp_le w
+  have hnx := nx_handW w
+  have hhw := handW_length_le w
+  have hi := items_length_le q
+  cases sh <;> simp only [step, Option.some.injEq] at hs <;> subst hs <;> inv_tac
+
+theorem inv_cDrain (h : Inv b src₀ ending s) (hc : s.c = .cDrain)
+    (hs : step s .consumer = some s') : Inv b src₀ ending s' := by
+  obtain ⟨b', q, sh, ex, src, en, pu, de, cl, ra, w, c⟩ := s
+  obtain ⟨hb, sb, se, qb, shut, join, after, okq, sent, dead, fifo, pre, len, exc, past, norm,
+    rais, pull, pullS⟩ := h
+  simp only at *
+  subst hc
+  have hrp := rp_le w
+  have hnx := nx_handW w
+  have hhw := handW_length_le w
+  have hi := items_length_le q
+  cases sh
+  · simp at shut
+  · cases q <;> simp only [step, Option.some.injEq] at hs <;> subst hs <;> inv_tac
+
+theorem inv_cJoin (h : Inv b src₀ ending s) (hc : s.c = .cJoin)
+    (hs : step s .consumer = some s') : Inv b src₀ ending s' := by
+  obtain ⟨b', q, sh, ex, src, en, pu, de, cl, ra, w, c⟩ := s
+  obtain ⟨hb, sb, se, qb, shut, join, after, okq, sent, dead, fifo, pre, len, exc, past, norm,
+    rais, pull, pullS⟩ := h
+  simp only at *
+  subst hc
+  have hrp := rp_le w
+  have hnx := nx_handW w
+  have hhw := handW_length_le w
+  have hi := items_length_le q
+  cases sh
+  · simp at shut
+  · cases w <;> simp only [step, Option.some.injEq, reduceCtorEq] at hs
+    subst hs; inv_tac
+
+theorem inv_cAfter (h : Inv b src₀ ending s) (hc : s.c = .cAfter)
+    (hs : step s .consumer = some s') : Inv b src₀ ending s' := by
+  obtain ⟨b', q, sh, ex, src, en, pu, de, cl, ra, w, c⟩ := s
+  obtain ⟨hb, sb, se, qb, shut, join, after, okq, sent, dead, fifo, pre, len, exc, past, norm,
+    rais, pull, pullS⟩ := h
+  simp only at *
+  subst hc
+  have hrp := rp_le w
+  have hnx := nx_handW w
+  have hhw := handW_length_le w
+  have hi := items_length_le q
+  cases sh
+  · simp at shut
+  · simp only [step, Option.some.injEq] at hs; subst hs
+    cases cl <;> inv_tac
+
+theorem inv_step_consumer (h : Inv b src₀ ending s) (hs : step s .consumer = some s') :
+    Inv b src₀ ending s' := by
+  cases hc : s.c with
+  | cGet => exact inv_cGet h hc hs
+  | cHave x => exact inv_cHave h hc hs
+  | cYield => simp [step, hc] at hs
+  | cFin => exact inv_cFin h hc hs
+  | cDrain => exact inv_cDrain h hc hs
+  | cJoin => exact inv_cJoin h hc hs
+  | cAfter => exact inv_cAfter h hc hs
+  | cDone => simp [step, hc] at hs
+
+theorem inv_step_resume_aux (h : Inv b src₀ ending s) (hc : s.c = .cYield)
+    (hs : step s .resume = some s') : Inv b src₀ ending s' := by
+  obtain ⟨b', q, sh, ex, src, en, pu, de, cl, ra, w, c⟩ := s
+  obtain ⟨hb, sb, se, qb, shut, join, after, okq, sent, dead, fifo, pre, len, exc, past, norm,
+    rais, pull, pullS⟩ := h
+  simp only at *
+  subst hc
+  have hrp := rp_le w
+  have hnx := nx_handW w
+  have hhw := handW_length_le w
+  have hi := items_length_le q
+  cases sh <;> simp only [step, Option.some.injEq] at hs <;> subst hs <;> inv_tac
+
+theorem inv_step_close_aux (h : Inv b src₀ ending s) (hc : s.c = .cYield)
+    (hs : step s .close = some s') : Inv b src₀ ending s' := by
+  obtain ⟨b', q, sh, ex, src, en, pu, de, cl, ra, w, c⟩ := s
+  obtain ⟨hb, sb, se, qb, shut, join, after, okq, sent, dead, fifo, pre, len, exc, past, norm,
+    rais, pull, pullS⟩ := h
+  simp only at *
+  subst hc
+  have hrp := rp_le w
+  have hnx := nx_handW w
+  have hhw := handW_length_le w
+  have hi := items_length_le q
+  cases sh <;> simp only [step, Option.some.injEq] at hs <;> subst hs <;> inv_tac
+
+theorem inv_step_resume (h : Inv b src₀ ending s) (hs : step s .resume = some s') :
+    Inv b src₀ ending s' := by
+  cases hc : s.c with
+  | cYield => exact inv_step_resume_aux h hc hs
+  | _ => simp [step, hc] at hs
+
+theorem inv_step_close (h : Inv b src₀ ending s) (hs : step s .close = some s') :
+    Inv b src₀ ending s' := by
+  cases hc : s.c with
+  | cYield => exact inv_step_close_aux h hc hs
+  | _ => simp [step, hc] at hs
+
+theorem inv_step {t : Tid} (h : Inv b src₀ ending s) (hs : step s t = some s') :
+    Inv b src₀ ending s' := by
+  cases t with
+  | worker => exact inv_step_worker h hs
+  | consumer => exact inv_step_consumer h hs
+  | resume => exact inv_step_resume h hs
+  | close => exact inv_step_close h hs
+
+theorem inv_run {sched : List Tid} (h : Inv b src₀ ending s) (hr : run s sched = some s') :
+    Inv b src₀ ending s' := by
+  induction sched generalizing s with
+  | nil => simp [run] at hr; subst hr; exact h
+  | cons t ts ih =>
+    simp only [run] at hr
+    split at hr
+    · next s₁ hs => exact ih (inv_step h hs) hr
+    · simp at hr
+
+theorem inv_reachable (hb : 1 ≤ b) (h : Reachable b src₀ ending s) : Inv b src₀ ending s := by
+  obtain ⟨sched, hr⟩ := h
+  exact inv_run (inv_init hb) hr
 
 end Step
 
